@@ -242,7 +242,67 @@ def op_drop_reverse(rel, src, tree, lines):
                     yield f.name, n.lineno, 'unreverse: ' + ast.get_source_segment(src, n)[:60], new
 
 
+GL = 'algopy/globalfuncs.py'
+
+
+def op_drop_kwarg(rel, src, tree, lines):
+    """f(a, k=k) -> f(a): an optional argument of the enclosing function is not handed on"""
+    for f in _funcs(tree):
+        params = {a.arg for a in f.args.args + f.args.kwonlyargs}
+        for n in ast.walk(f):
+            if isinstance(n, ast.Call) and n.lineno == n.end_lineno and n.keywords:
+                for i, k in enumerate(n.keywords):
+                    if k.arg is None or k.arg == 'out' or not (isinstance(k.value, ast.Name) and k.value.id in params):
+                        continue
+                    fn = ast.get_source_segment(src, n.func)
+                    parts = [ast.get_source_segment(src, a) for a in n.args] + \
+                            [('%s=%s' % (q.arg, ast.get_source_segment(src, q.value))) if q.arg else '**' + ast.get_source_segment(src, q.value)
+                             for j, q in enumerate(n.keywords) if j != i]
+                    txt = '%s(%s)' % (fn, ', '.join(parts))
+                    new = _splice(lines, n, txt)
+                    if new:
+                        yield f.name, n.lineno, 'drop %s: %s' % (k.arg, txt[:70]), new
+
+
+def op_axis_const(rel, src, tree, lines):
+    """axis=c -> axis=c+1 in reductions of kernels"""
+    for f in _funcs(tree):
+        for n in ast.walk(f):
+            if isinstance(n, ast.Call) and n.lineno == n.end_lineno:
+                for k in n.keywords:
+                    if k.arg == 'axis' and isinstance(k.value, ast.Constant) and isinstance(k.value.value, int):
+                        new = _splice(lines, k.value, str(k.value.value + 1))
+                        if new:
+                            yield f.name, n.lineno, 'axis %d->%d: %s' % (k.value.value, k.value.value + 1, ast.get_source_segment(src, n)[:60]), new
+
+
+def op_tuple_slot(rel, src, tree, lines):
+    """out[0] <-> out[1] (a component taken from the wrong slot of the output tuple)"""
+    for f in _funcs(tree):
+        for n in ast.walk(f):
+            if isinstance(n, ast.Subscript) and isinstance(n.value, ast.Name) and n.value.id in ('out', 'retval', 'outs') and isinstance(n.slice, ast.Constant) \
+                    and n.slice.value in (0, 1) and n.lineno == n.end_lineno:
+                new = _splice(lines, n.slice, str(1 - n.slice.value))
+                if new:
+                    yield f.name, n.lineno, 'slot: ' + ast.get_source_segment(src, n), new
+
+
+def op_array_to_asarray(rel, src, tree, lines):
+    """numpy.array(x) -> numpy.asarray(x): a copy becomes a possible alias"""
+    for f in _funcs(tree):
+        for n in ast.walk(f):
+            if isinstance(n, ast.Call) and ast.get_source_segment(src, n.func) == 'numpy.array' and n.lineno == n.end_lineno and n.args \
+                    and isinstance(n.args[0], (ast.Name, ast.Attribute)):
+                new = _splice(lines, n.func, 'numpy.asarray')
+                if new:
+                    yield f.name, n.lineno, ast.get_source_segment(src, n)[:60], new
+
+
 OPERATORS = {
+    'drop_kwarg': (op_drop_kwarg, [UT, GL, TR]),
+    'axis_const': (op_axis_const, [ALG, UT]),
+    'tuple_slot': (op_tuple_slot, [ALG, UT]),
+    'array_to_asarray': (op_array_to_asarray, [ALG, UT, TR]),
     'aug_to_assign': (op_aug_to_assign, [ALG, UT]),
     'assign_to_aug': (op_assign_to_aug, [ALG]),
     'range_bound': (op_range_bound, [ALG]),
